@@ -222,8 +222,9 @@ def add_chart(d, cd, ct="COLUMN_CLUSTERED"):
 
 # ------------------------------------------------------------------ the sink registry
 class Sink:
-    def __init__(self, name, cls, do, api=None, member=SLIDE, xp=None, dom="attr", exp=None, nonempty=False, breaks=False):
+    def __init__(self, name, cls, do, api=None, member=SLIDE, xp=None, dom="attr", exp=None, nonempty=False, breaks=False, names_vary=False):
         self.name, self.cls, self.do, self.api, self.member, self.xp = name, cls, do, api, member, xp
+        self.names_vary = names_vary  # member NAMES legitimately depend on the string (a part named after the file's extension)
         self.dom, self.exp, self.nonempty, self.breaks = dom, exp or (lambda s: s), nonempty, breaks
 
 
@@ -274,6 +275,12 @@ def _ph_reuse(kind):
         return {"id": new.shape_id}
 
     return do
+
+
+def _movie_ext(d, s):
+    """The string in the EXTENSION position of the movie's file name ('clip.' + s; the empty string = a name ending in a dot)."""
+    f = d.file("clip." + s, b"not-a-movie %d" % d.uniq)
+    return {"id": d.slide().shapes.add_movie(f, *box(), mime_type="video/mp4").shape_id}
 
 
 def _movie(d, s=None, poster=None, mime="video/mp4"):
@@ -488,6 +495,7 @@ def _register():
     sink("filename:insert_picture", "placeholder-picture-filename", lambda d, s: {"id": d.slide(8).placeholders[1].insert_picture(d.png(s + ".png")).shape_id},
          xp=sp + "/@descr", dom="file", exp=png)
     sink("filename:add_movie", "movie-filename", lambda d, s: _movie(d, s), name_api, xp=sp + "/@name", dom="file", exp=mp4)
+    sink("fileext:add_movie", "movie-file-extension", _movie_ext, name_api, xp=sp + "/@name", dom="file", exp=lambda s: "clip." + s, names_vary=True)
     sink("filename:poster-frame", "poster-frame-filename", lambda d, s: _movie(d, None, poster=d.png(s + ".png")), dom="file")  # not stored: no reader
     sink("filename:ole-icon", "ole-icon-filename", lambda d, s: _ole(d, "Abc", icon=d.png(s + ".png")), dom="file")  # not stored: no reader
     sink("mime-type:add_movie", "movie-mime-type", lambda d, s: _movie(d, None, mime=s), lambda prs, h: _media_part(prs).content_type,
@@ -651,7 +659,41 @@ def control_for(snk, tmp_root):
     return CONTROLS[snk.name]
 
 
-PRIORITY = ["raises", "saved-part-malformed", "structure-changed", "readback", "reopen"]
+PRIORITY = ["raises", "saved-part-malformed", "saved-package-unsound", "structure-changed", "readback", "reopen"]
+
+
+def package_faults(members):
+    """What a consumer that follows the OPC rules trips over, read with zipfile + lxml + urllib only: a member whose name is not
+    a part name (a segment that is empty or ends in a dot, a character a part name cannot hold), and an internal relationship
+    whose Target - a URI reference: '#' starts a fragment, '?' a query - does not designate a member of the package."""
+    import posixpath
+    from urllib.parse import unquote, urlsplit
+
+    from lxml import etree
+    from vlib.xsdkit import PLAIN
+
+    out = []
+    for m in members:
+        if m == "[Content_Types].xml":
+            continue
+        segs = m.split("/")
+        if any(not g or g.endswith(".") for g in segs) or re.search(r"[^A-Za-z0-9\-._~!$&'()*+,;=:@%/\[\]]", m) or re.search(r"%(?![0-9A-Fa-f]{2})", m):
+            out.append("member %r is not an OPC part name" % m)
+    for m, b in members.items():
+        if not m.endswith(".rels"):
+            continue
+        base = posixpath.dirname(posixpath.dirname(m))  # 'ppt/slides/_rels/slide1.xml.rels' -> 'ppt/slides'
+        for rel in etree.fromstring(b, PLAIN):
+            if not isinstance(rel.tag, str) or rel.get("TargetMode") == "External":
+                continue
+            u = urlsplit(rel.get("Target") or "")
+            path = unquote(u.path)
+            name = posixpath.normpath(path if path.startswith("/") else posixpath.join("/" + base, path)).lstrip("/")
+            if u.query or u.fragment or "#" in (rel.get("Target") or "") or "?" in (rel.get("Target") or ""):
+                out.append("%s: Target %r carries a query / fragment: as a URI it designates %r" % (m, rel.get("Target"), name))
+            elif name not in members:
+                out.append("%s: Target %r designates %r, which is not in the package" % (m, rel.get("Target"), name))
+    return out
 
 
 def run_case(snk, s, acc, uniq, tmp, say=None):
@@ -720,11 +762,14 @@ def run_case(snk, s, acc, uniq, tmp, say=None):
                     bad("saved-part-malformed", "%s does not parse: %s" % (m, e))
         if any(k == "saved-part-malformed" for k, _, _ in found):
             return
+        acc.count("saved_packages_checked_for_part_names_and_targets")
+        for fault in package_faults(members)[:1]:
+            bad("saved-package-unsound", fault)
         if not s or (snk.dom == "text" and has_breaks(s)):
             acc.count("skeleton_comparisons_skipped_documented_translation")
         else:
             acc.count("skeleton_comparisons")
-            diff = sorted(set(members) ^ set(ctl_members)) + [m for m in skel if m in ctl_skel and skel[m] != ctl_skel[m]]
+            diff = ([] if snk.names_vary else sorted(set(members) ^ set(ctl_members))) + [m for m in skel if m in ctl_skel and skel[m] != ctl_skel[m] and not (snk.names_vary and m == "[Content_Types].xml")]
             say("  skeletons of %d XML members against the control run: %s" % (len(skel), "DIFFER in %s" % diff if diff else "equal"))
             if diff:
                 bad("structure-changed", "members / element skeletons differ from what the control string %r produces: %s" % (CONTROL, diff[:4]))
